@@ -292,6 +292,29 @@ def r4_filter(ctx):
         ctx.add("R4", qn + "|paths", "UNDECIDED", "expected single- and multi-component return paths", fn=qn)
 
 
+def r4_overrides(ctx):
+    """sibling agreement: a gridder that overrides filter() keeps BaseGridder.filter's contract - the coordinates and the weights come back
+    as they were given (a Chain step that hands reduced coordinates on is a block reduction, not a gridder)"""
+    base = "verde.base.base_classes.BaseGridder"
+    for cq in sorted(ctx.pkg.subclasses(base)):
+        f = ctx.pkg.classes[cq].methods.get("filter")
+        if f is None:
+            continue
+        for p in ctx.paths(f.qual):
+            if p.exit != "return":
+                continue
+            v = Q.unseq(p.value) if p.value[0] not in ("tuple",) else p.value
+            tag = Q.tags(p.conds) or "-"
+            if v[0] != "tuple" or len(v[1]) != 3:
+                ctx.add("R4", "%s|returns-three|%s" % (f.qual, tag), "VIOLATED" if v[0] in ("prev", "mu") or (v[0] == "tuple") else "UNDECIDED",
+                        "%s.filter returns %s instead of (the given coordinates, residuals, the given weights): inside an outer Chain the next step is fitted on whatever the last inner step handed on" % (cq.rsplit(".", 1)[1], show(v)[:50]), fn=f.qual)
+                continue
+            ctx.check("R4", "%s|returns-given-coordinates|%s" % (f.qual, tag), True if v[1][0] == ("param", "coordinates") else False, "the coordinates are returned as given",
+                      bad="filter returns %s as coordinates" % show(v[1][0])[:60], fn=f.qual)
+            ctx.check("R4", "%s|returns-given-weights|%s" % (f.qual, tag), True if v[1][2] == ("param", "weights") else False, "the weights are returned as given",
+                      bad="filter returns %s as weights" % show(v[1][2])[:60], fn=f.qual)
+
+
 def r5_arity(ctx):
     for qn, n, names in (("verde.blockreduce.BlockReduce.filter", 2, "(coordinates, data)"), ("verde.blockreduce.BlockMean.filter", 3, "(coordinates, data, weights)")):
         ok = True
@@ -311,4 +334,5 @@ def check(ctx):
     r2_sum(ctx)
     r3_vector(ctx)
     r4_filter(ctx)
+    r4_overrides(ctx)
     r5_arity(ctx)
